@@ -380,6 +380,15 @@ def analyse(body, entry_bits, info=None):
             sites[key] = Site(kind, b.key, block, name, term, stmt, extra)
         return sites[key]
 
+    # references to the progress counters of the accessor (len / expect_idx / wire_idx of Style)
+    counter_refs = {}
+    for blk in b.blocks:
+        for st0 in blk["s"]:
+            if st0["k"] == "assign" and st0["r"]["k"] == "ref" and last_field(st0["r"]["p"]) in ("len", "expect_idx", "wire_idx"):
+                l0 = simple_local(st0["p"])
+                if l0 is not None:
+                    counter_refs[l0] = last_field(st0["r"]["p"])
+
     def on_stmt(bi, st, bits, cd):
         if st["k"] != "assign":
             return bits
@@ -387,6 +396,10 @@ def analyse(body, entry_bits, info=None):
         lf = last_field(p)
         nb = set(bits)
         r = st["r"]
+        if lf in ("len", "expect_idx", "wire_idx") and "style" in place_fields(p):
+            nb.add(f"P:{lf}")
+        elif (p.get("p") or []) == ["*"] and p["l"] in counter_refs:
+            nb.add(f"P:{counter_refs[p['l']]}")
         if lf in CTX_TYPES or lf in CTX_FLAGS:
             nb.add(f"A:{lf}")
             # what was known about the old value of the flag no longer holds
